@@ -30,7 +30,10 @@ class Result:
 
 
 def analyse(fn: ast.FunctionDef, roots_params: bool = True, root_expr: Optional[Callable[[ast.expr], Optional[str]]] = None,
-            skip_params: Tuple[str, ...] = ("self", "cls")) -> Result:
+            skip_params: Tuple[str, ...] = ("self", "cls"), through_attrs: Optional[Set[str]] = None) -> Result:
+    """through_attrs: attribute names that hold arrays or sub-objects (Solution.tdgl_data, TDGLData.mu ...): `p.a.b` then shares
+    storage with what the caller owns through parameter p."""
+    through_attrs = through_attrs or set()
     res = Result()
     seen = set()
     alias: Dict[str, Set[str]] = {}
@@ -56,7 +59,7 @@ def analyse(fn: ast.FunctionDef, roots_params: bool = True, root_expr: Optional[
         if isinstance(e, ast.Starred):
             return roots(e.value, env)
         if isinstance(e, ast.Attribute):
-            return roots(e.value, env) if e.attr in VIEW_ATTRS else set()
+            return roots(e.value, env) if (e.attr in VIEW_ATTRS or e.attr in through_attrs) else set()
         if isinstance(e, (ast.List, ast.Tuple)):
             out = set()
             for x in e.elts:
